@@ -368,3 +368,33 @@ def clone(node):
     if isinstance(node, list):
         return [clone(x) for x in node]
     return node
+
+
+def straightline_env(stmts, env=None):
+    """name -> expression (ast) after executing the straight-line statements in order, each right-hand side having the
+    earlier definitions substituted (so a name reassigned several times is followed). Non-assignments are skipped;
+    compound statements end the walk."""
+    env = dict(env or {})
+
+    def subst(e):
+        class T(ast.NodeTransformer):
+            def visit_Name(self, n):
+                if isinstance(n.ctx, ast.Load) and n.id in env:
+                    return clone(env[n.id])
+                return n
+        return T().visit(clone(e))
+    for st in stmts:
+        if isinstance(st, ast.Assign) and len(st.targets) == 1:
+            tg = st.targets[0]
+            if isinstance(tg, ast.Name):
+                env[tg.id] = subst(st.value)
+            elif isinstance(tg, ast.Tuple) and isinstance(st.value, ast.Tuple) and len(tg.elts) == len(st.value.elts):
+                vals = [subst(v) for v in st.value.elts]
+                for t, v in zip(tg.elts, vals):
+                    if isinstance(t, ast.Name):
+                        env[t.id] = v
+        elif isinstance(st, (ast.Expr, ast.Assert, ast.Pass, ast.AugAssign, ast.Continue, ast.Break, ast.Return)):
+            continue
+        else:
+            break
+    return env
